@@ -39,6 +39,8 @@ impl<'a> Remote<'a> {
         // the executor's `set_dropped`, the executor is guaranteed to see this count
         // in `wait_for_scheduling`; if it comes after, we see the task cancelled and
         // never touch `Shared`.
+        #[cfg(compio_verif)]
+        compio_log::verif::point("exec.remote.enter", self.ptr.as_ptr() as u64, 0);
         self.header().schedulers.fetch_add(1, Ordering::Relaxed);
 
         let state = self.header().state.start_scheduling();
@@ -105,6 +107,8 @@ impl<'a> Remote<'a> {
     /// Leave `schedule`: nothing of `Shared` may be used after this.
     fn finish_scheduling(&self) {
         self.header().state.finish_scheduling();
+        #[cfg(compio_verif)]
+        compio_log::verif::point("exec.remote.leave", self.ptr.as_ptr() as u64, 0);
         self.header().schedulers.fetch_sub(1, Ordering::Release);
     }
 
@@ -204,6 +208,8 @@ impl<'a> Remote<'a> {
     fn drop_waker_left_by_executor(&self, before: Snapshot, end: Snapshot) {
         if before.has_waker() && !end.has_waker() {
             trace!("Dropping waker left by the executor");
+            #[cfg(compio_verif)]
+            compio_log::verif::point("exec.remote.drop_stale_waker", self.ptr.as_ptr() as u64, 0);
             self.header().waker.with_mut(|ptr| {
                 crate::panic_guard!();
 
